@@ -1,8 +1,214 @@
-import AslModel.HttpFrame
-/-! # C10 — property theorems (in progress) -/
-namespace C10
-open AslModel.HttpFrame
+import AslProofs.HttpFrame
+/-!
+# C10 — HTTP client and server exchange exact methods, headers, status and bodies
 
-theorem frameBlock_plain (p : Bytes) : frameBlock false p = p := rfl
+Theorems about `AslModel.HttpFrame` (the functions `lean/Driver/C10.lean` runs against the real library).  The reader is
+quantified over every connection state `Inp.ofBytes wire cuts`: `cuts` is an arbitrary list of positions where the
+peer's sends were cut, i.e. every fragmentation of the byte stream; `rest` is whatever follows the message on the same
+connection (the next pipelined request, or nothing).
+-/
+namespace C10
+open AslModel.HttpFrame AslProofs.HttpFrame
+
+/-! ## the sender adds nothing to and takes nothing from a length-framed body, for every block size -/
+
+/-- `write(buffer, n)` with a Content-Length: the blocks concatenate to the body (block boundaries are invisible) -/
+theorem length_framing_transparent (blk : Nat) (hb : 0 < blk) (body : Bytes) : writeBody false blk body = body :=
+  writeBody_plain blk hb body
+
+theorem writeFileLoop_plain (blk rblk : Nat) (hb : 0 < blk) (hr : 0 < rblk) :
+    ∀ (f : Nat) (b : Bytes), b.length ≤ f → writeFileLoop false blk rblk f b = b := by
+  intro f
+  induction f with
+  | zero => intro b h; have : b = [] := List.eq_nil_of_length_eq_zero (by omega); subst this; rfl
+  | succ f ih =>
+    intro b h
+    unfold writeFileLoop
+    by_cases he : b.isEmpty = true
+    · simp only [he, if_true]; exact (List.isEmpty_iff.mp he).symm
+    · have hf : b.isEmpty = false := by simpa using he
+      have hne : b ≠ [] := by intro h0; subst h0; simp at he
+      have hl : 0 < b.length := List.length_pos_iff.mpr hne
+      simp only [hf, Bool.false_eq_true, if_false]
+      rw [writeBody_plain blk hb, ih _ (by rw [List.length_drop]; omega), List.take_append_drop]
+
+/-- `writeFile`: a file sent in `rblk`-byte reads, each through `write(buf, n)`, arrives as the file's bytes -/
+theorem file_blocks_transparent (blk rblk : Nat) (hb : 0 < blk) (hr : 0 < rblk) (content : Bytes) :
+    writeFile false blk rblk content = content :=
+  writeFileLoop_plain blk rblk hb hr content.length content (Nat.le_refl _)
+
+/-- the block sizes of the current source (regenerated from src/Http.cpp) are usable -/
+theorem block_sizes_ok : 0 < sendBlock ∧ sendBlock < 4294967296 ∧ 0 < recvBlock := by decide
+
+
+/-! ## requests: what `Http::request` sends is what `HttpRequest::read` hands to the handler -/
+
+/-- the request as the handler must see it (written from the HTTP semantics, not from the code): same method, same
+target, HTTP/1.1, the same body bytes, and every header that was sent retrievable under its name -/
+structure SeesRequest (q : Request) (method target : Bytes) (sent : List (Bytes × Bytes)) (body : Bytes) : Prop where
+  method : q.method = method
+  target : q.resource = target
+  proto : q.proto = sHttp11
+  body : q.body = body
+  headers : ∀ nv ∈ sent, (∀ other ∈ sent, capitalized other.1 = capitalized nv.1 → other = nv) → header q.headers nv.1 = nv.2
+
+theorem norm_lookup : ∀ (hs : List (Bytes × Bytes)) (d : Dic) (nv : Bytes × Bytes), (∀ x ∈ hs, x.2 ≠ []) → nv ∈ hs →
+    (∀ other ∈ hs, capitalized other.1 = capitalized nv.1 → other = nv) →
+    dicGet (hs.foldl (fun d x => setHeader d x.1 x.2) d) (capitalized nv.1) = some nv.2 := by
+  intro hs
+  induction hs with
+  | nil => intro d nv _ h; exact absurd h (by simp)
+  | cons x t ih =>
+    intro d nv hne hmem huniq
+    simp only [List.foldl_cons]
+    by_cases hin : nv ∈ t
+    · exact ih _ nv (fun y hy => hne y (List.mem_cons_of_mem _ hy)) hin (fun o ho => huniq o (List.mem_cons_of_mem _ ho))
+    · have hx : nv = x := by
+        rcases List.mem_cons.mp hmem with h | h
+        · exact h
+        · exact absurd h hin
+      subst hx
+      rw [foldl_setHeader_preserve (capitalized nv.1) t _ (fun y hy => ⟨hne y (List.mem_cons_of_mem _ hy), fun hc => by
+        have := huniq y (List.mem_cons_of_mem _ hy) hc
+        subst this; exact hin hy⟩)]
+      rw [setHeader_of_value (hne nv List.mem_cons_self)]
+      exact dicGet_dicSet_same _ _ _
+
+theorem capitalized_idem_lookup (H : Dic) (n : Bytes) : header H n = (dicGet H (capitalized n)).getD [] := rfl
+
+/-- **frame_roundtrip (requests).**  For every method, target, header set and body (of any length), every
+fragmentation `cuts` of the byte stream and whatever follows on the connection (`rest`): the server-side reader returns
+exactly what the client serialized and leaves the connection positioned at `rest`. -/
+theorem request_roundtrip (method target host : Bytes) (port : Nat) (hs : Dic) (body rest : Bytes) (cuts : List Nat)
+    (hm : WFWord method) (ht : WFWord target) (hfit : method.length + target.length + 11 ≤ 16001)
+    (hhp : WFValue (host ++ [58] ++ utoa port)) (hhpfit : FitsLine sHostName (host ++ [58] ++ utoa port))
+    (hwf : WFHeaders hs) (hres : NoFraming hs) (hbody : body.length < 2147483648) :
+    ∃ (q : Request) (i' : Inp),
+      readRequest (Inp.ofBytes (serialize (clientMsg method target host port true hs body) ++ rest) cuts) = (q, i') ∧
+      i'.data = rest ∧ Live i' ∧
+      SeesRequest q method target ((sHostName, host ++ [58] ++ utoa port) :: (clientMsg method target host port true hs body).headers) body := by
+  obtain ⟨hfr, hmem⟩ := client_framed sendBlock (host ++ [58] ++ utoa port) hs body sendBlock_pos hwf hres hhp.1
+  -- the header list on the wire and its well-formedness
+  have hwf' : WFHeaders ((sHostName, host ++ [58] ++ utoa port) ::
+      (if body.length ≠ 0 then setHeader hs sContentLength (utoa body.length) else hs)) := by
+    intro x hx
+    rcases List.mem_cons.mp hx with h | h
+    · subst h; exact ⟨wf_name_host, hhp, hhpfit⟩
+    · rcases hmem x h with h | h
+      · subst h
+        refine ⟨wf_name_cl, wf_digits_value _, ?_⟩
+        have := utoa_length body.length hbody
+        unfold FitsLine; simp [sContentLength]; omega
+      · exact hwf x h
+  have hwire : (Inp.ofBytes (serialize (clientMsg method target host port true hs body) ++ rest) cuts).data =
+      method ++ [32] ++ target ++ [32] ++ sHttp11 ++ crlf ++
+        headerLines ((sHostName, host ++ [58] ++ utoa port) :: (if body.length ≠ 0 then setHeader hs sContentLength (utoa body.length) else hs))
+        ++ crlf ++ writeBody (isChunked (if body.length ≠ 0 then setHeader hs sContentLength (utoa body.length) else hs)) sendBlock body ++ rest := by
+    simp [Inp.ofBytes, serialize, serializeWith, clientMsg, headerBlock, headerLines, sHostName, List.append_assoc]
+  obtain ⟨i', hread, hdat, hlive⟩ := readRequest_wire sendBlock sendBlock_pos sendBlock_lt method target _ _ body rest hm ht hfit hwf' hfr
+    (Inp.ofBytes (serialize (clientMsg method target host port true hs body) ++ rest) cuts) ⟨rfl, rfl⟩ hwire
+  refine ⟨_, i', hread, hdat, hlive, ⟨rfl, rfl, rfl, rfl, ?_⟩⟩
+  intro nv hnv huniq
+  have hval : ∀ x ∈ (sHostName, host ++ [58] ++ utoa port) :: (clientMsg method target host port true hs body).headers, x.2 ≠ [] := by
+    intro x hx; exact (hwf' x (by simpa [clientMsg] using hx)).2.1.1
+  have := norm_lookup _ [] nv hval hnv huniq
+  show header (norm _) nv.1 = nv.2
+  unfold header norm
+  simp only [clientMsg] at this ⊢
+  rw [this]; rfl
+
+
+/-! ## responses: what the handler produced is what `Http::request` returns -/
+
+/-- the response as the client must see it: same status code, same protocol, same body bytes, every header the
+handler set retrievable under its name, and no socket error -/
+structure SeesResponse (r : Response) (code : Nat) (proto : Bytes) (sent : List (Bytes × Bytes)) (body : Bytes) : Prop where
+  code : r.code = code
+  proto : r.proto = proto
+  body : r.body = body
+  noError : r.sockError = []
+  headers : ∀ nv ∈ sent, (∀ other ∈ sent, capitalized other.1 = capitalized nv.1 → other = nv) → header r.headers nv.1 = nv.2
+
+theorem codeMsg_ok (code : Nat) : (∀ c ∈ codeMsg code, c ≠ 10) ∧ (codeMsg code).length ≤ 15 := by
+  unfold codeMsg
+  repeat' split
+  all_goals exact ⟨by decide, by decide⟩
+
+theorem statusLine_eq (proto : Bytes) (code : Nat) : statusLine proto code = proto ++ [32] ++ utoa code ++ [32] ++ codeMsg code := rfl
+
+/-- the two protocol texts a response can start with -/
+def IsProto (p : Bytes) : Prop := p = sHttp11 ∨ p = sHttp10
+
+theorem proto_ok {p : Bytes} (h : IsProto p) : p ≠ [] ∧ (∀ c ∈ p, isSpace c = false) ∧ p.length = 8 := by
+  rcases h with h | h <;> subst h <;> exact ⟨by decide, by decide, by decide⟩
+
+/-- the message the server writes for a handler that `put()` a body: status line, the handler's headers plus the
+Content-Length that `put` sets -/
+def putResponse (proto : Bytes) (code : Nat) (hs : Dic) (body : Bytes) : Msg :=
+  ⟨statusLine proto code, setHeader hs sContentLength (utoa body.length), body⟩
+
+/-- **frame_roundtrip (responses with a length).**  A response whose body was `put()` — any status code, any header
+set, a body of any length — is returned by the client's reader exactly, for every fragmentation of the stream. -/
+theorem response_roundtrip (proto : Bytes) (code : Nat) (hs : Dic) (body rest : Bytes) (cuts : List Nat)
+    (hp : IsProto proto) (hcode : code < 2147483648) (hwf : WFHeaders hs) (hres : NoFraming hs) (hbody : body.length < 2147483648) :
+    ∃ (r : Response) (i' : Inp),
+      readResponse (Inp.ofBytes (serialize (putResponse proto code hs body) ++ rest) cuts) = (r, i') ∧
+      i'.data = rest ∧ Live i' ∧
+      SeesResponse r code proto (setHeader hs sContentLength (utoa body.length)) body := by
+  obtain ⟨hfr, hmem⟩ := put_framed sendBlock hs body sendBlock_pos hwf hres
+  have hwf' : WFHeaders (setHeader hs sContentLength (utoa body.length)) := by
+    intro x hx
+    rcases hmem x hx with h | h
+    · subst h
+      refine ⟨wf_name_cl, wf_digits_value _, ?_⟩
+      have := utoa_length body.length hbody
+      unfold FitsLine; simp [sContentLength]; omega
+    · exact hwf x h
+  obtain ⟨hp0, hpsp, hplen⟩ := proto_ok hp
+  have hcm := codeMsg_ok code
+  have hwire : (Inp.ofBytes (serialize (putResponse proto code hs body) ++ rest) cuts).data =
+      proto ++ [32] ++ utoa code ++ [32] ++ codeMsg code ++ crlf ++ headerLines (setHeader hs sContentLength (utoa body.length)) ++ crlf ++
+        writeBody (isChunked (setHeader hs sContentLength (utoa body.length))) sendBlock body ++ rest := by
+    simp [Inp.ofBytes, serialize, serializeWith, putResponse, headerBlock, statusLine_eq, List.append_assoc]
+  obtain ⟨i', hread, hdat, hlive⟩ := readResponse_wire sendBlock sendBlock_pos sendBlock_lt proto (codeMsg code) code _ _ body rest
+    hp0 hpsp hcm.1 (by have := utoa_length code hcode; omega) hwf' hfr _ ⟨rfl, rfl⟩ hwire
+  refine ⟨_, i', hread, hdat, hlive, ⟨rfl, rfl, rfl, rfl, ?_⟩⟩
+  intro nv hnv huniq
+  have := norm_lookup _ [] nv (fun x hx => (hwf' x hx).2.1.1) hnv huniq
+  show header (norm _) nv.1 = nv.2
+  unfold header norm
+  rw [this]; rfl
+
+/-- **frame_roundtrip (streamed, chunked responses).**  A handler that sets `Transfer-Encoding: chunked`, streams any
+list of parts through `write(part)` (each cut into blocks, each block a chunk) and ends with the last chunk: the client
+returns the concatenation of the parts, for every block size in force and every fragmentation. -/
+theorem stream_roundtrip (proto : Bytes) (code : Nat) (hs : Dic) (parts : List Bytes) (rest : Bytes) (cuts : List Nat)
+    (hp : IsProto proto) (hcode : code < 2147483648) (hwf : WFHeaders hs) (hres : NoFraming hs) :
+    ∃ (r : Response) (i' : Inp),
+      readResponse (Inp.ofBytes (serializeStream sendBlock (statusLine proto code) (setHeader hs sTransferEncoding sChunked) parts true ++ rest) cuts)
+        = (r, i') ∧
+      i'.data = rest ∧ Live i' ∧
+      SeesResponse r code proto (setHeader hs sTransferEncoding sChunked) parts.flatten := by
+  obtain ⟨hfr, hmem⟩ := stream_framed sendBlock hs parts hwf hres
+  have hwf' : WFHeaders (setHeader hs sTransferEncoding sChunked) := by
+    intro x hx
+    rcases hmem x hx with h | h
+    · subst h
+      exact ⟨wf_name_te, wf_value_chunked, by unfold FitsLine; decide⟩
+    · exact hwf x h
+  obtain ⟨hp0, hpsp, hplen⟩ := proto_ok hp
+  have hcm := codeMsg_ok code
+  have hwire : (Inp.ofBytes (serializeStream sendBlock (statusLine proto code) (setHeader hs sTransferEncoding sChunked) parts true ++ rest) cuts).data =
+      proto ++ [32] ++ utoa code ++ [32] ++ codeMsg code ++ crlf ++ headerLines (setHeader hs sTransferEncoding sChunked) ++ crlf ++
+        ((parts.map (writeBody (isChunked (setHeader hs sTransferEncoding sChunked)) sendBlock)).flatten ++ lastChunk) ++ rest := by
+    simp [Inp.ofBytes, serializeStream, headerBlock, statusLine_eq, List.append_assoc]
+  obtain ⟨i', hread, hdat, hlive⟩ := readResponse_wire sendBlock sendBlock_pos sendBlock_lt proto (codeMsg code) code _ _ _ rest
+    hp0 hpsp hcm.1 (by have := utoa_length code hcode; omega) hwf' hfr _ ⟨rfl, rfl⟩ hwire
+  refine ⟨_, i', hread, hdat, hlive, ⟨rfl, rfl, rfl, rfl, ?_⟩⟩
+  intro nv hnv huniq
+  have := norm_lookup _ [] nv (fun x hx => (hwf' x hx).2.1.1) hnv huniq
+  show header (norm _) nv.1 = nv.2
+  unfold header norm
+  rw [this]; rfl
 
 end C10
